@@ -21,10 +21,10 @@ type Node struct {
 }
 
 type FS struct {
-	N      map[string]*Node
-	UID    int
-	GID    int
-	gen    int
+	N   map[string]*Node
+	UID int
+	GID int
+	gen int
 }
 
 func New(uid, gid int, rootPerm uint32) *FS {
